@@ -20,7 +20,10 @@ REQS = ["prelude", "arithmetic.int.types", "other.ext", "ünï"]
 
 def gen_extension(r, name=None, small=False):
     name = name or r.choice(NAMES)
-    e = {"name": name, "version": r.choice(VERSIONS), "reqs": sorted(r.sample(REQS, r.randint(0, 3))),
+    reqs = sorted(r.sample(REQS, r.randint(0, 3)))
+    if r.random() < 0.2:
+        reqs = sorted({*reqs, name})     # an extension may list itself among its requirements
+    e = {"name": name, "version": r.choice(VERSIONS), "reqs": reqs,
          "types": [], "ops": [], "values": []}
     g = Gen(r, allow_vars=False, allow_ext=False)
     # a quarter of the extensions use ONE pool of names for their types, operations and values: the three
